@@ -429,9 +429,6 @@ package storage
 // initialize, the one clause of its assumed contract above that is about its own code rather than about the resources it
 // opens: an open attempt that FAILS leaves the segment closed (index nil), so the next acquire tries again instead of
 // handing out a segment whose series index is already closed and whose shards are missing. Thin contract.
-//@ func context.WithValue
-//@   assumed context
-//@   pure
 //@ func common.SetPosition
 //@   assumed context
 //@   pure
